@@ -484,3 +484,130 @@ Section Csv.
   Definition csv_read (file : list key * list (list (option T))) : list dict :=
     map (fun line => flat_map (fun cf => read_field (fst cf) (snd cf)) (combine (fst file) line)) (snd file).
 End Csv.
+
+(* ======================================================================== *)
+(* Tuner.run: one run of an experiment, body and `finally` block            *)
+(* ======================================================================== *)
+(* What the backend hands to the loop for one result: the trial, the result, and what
+   trial_status_dict says about the trial in that poll (status, configuration);
+   clock / store decision as in [event]. *)
+Record hitem := {
+  hi_trial : Z; hi_result : dict; hi_status : nat; hi_config : list (nat * value);
+  hi_clock : Q; hi_fire : bool
+}.
+
+(* scheduler.on_trial_result is an oracle: decision token, and whether it is STOP or PAUSE *)
+Record answer := { an_decision : nat; an_stops : bool }.
+
+Definition event_of (h : hitem) (a : answer) : event :=
+  {| ev_trial := hi_trial h; ev_status := hi_status h; ev_result := hi_result h;
+     ev_decision := an_decision a; ev_config := hi_config h; ev_clock := hi_clock h; ev_fire := hi_fire h |}.
+
+(* Tuner._update_running_trials, first loop: `if trial_id not in done_trials`: results of a
+   trial which follow a STOP / PAUSE decision in the same batch are not delivered.
+   Result: delivered events (with "stopped?"), unused answers, and false when the oracle
+   ran dry = the scheduler call raised (the exception leaves the loop). *)
+Fixpoint deliver_batch (answers : list answer) (done : list Z) (batch : list hitem)
+  : list (event * bool) * list answer * bool :=
+  match batch with
+  | [] => ([], answers, true)
+  | h :: rest =>
+      if mem_Z (hi_trial h) done then deliver_batch answers done rest
+      else match answers with
+           | [] => ([], [], false)
+           | a :: answers' =>
+               let '(es, rem, ok) :=
+                 deliver_batch answers' (if an_stops a then hi_trial h :: done else done) rest in
+               ((event_of h a, an_stops a) :: es, rem, ok)
+           end
+  end.
+
+(* the loop body seen from results callback and tuning status *)
+Inductive step :=
+| Batch (status_ids : list Z) (items : list hitem)   (* _process_new_results *)
+| Started (t : Z)                                     (* _schedule_new_tasks: status.update({t: ...}, []) *)
+| Fault.                                              (* an exception from backend / scheduler / callback *)
+
+Record run_state := { rs_cb : cb_state; rs_ts : tstatus }.
+
+Definition handed_of (items : list hitem) : list (Z * dict) :=
+  map (fun h => (hi_trial h, hi_result h)) items.
+
+(* returns the state and whether an exception left the loop *)
+Fixpoint run_body (st : run_state) (answers : list answer) (steps : list step) : run_state * bool :=
+  match steps with
+  | [] => (st, false)
+  | Fault :: _ => (st, true)
+  | Started t :: rest =>
+      run_body {| rs_cb := rs_cb st; rs_ts := ts_update (rs_ts st) ([t], []) |} answers rest
+  | Batch ids items :: rest =>
+      let '(evs, rem, ok) := deliver_batch answers [] items in
+      match cb_feed (rs_cb st) (map fst evs) with
+      | None => (st, true)                              (* AssertionError of the callback *)
+      | Some cb' =>
+          if ok then run_body {| rs_cb := cb'; rs_ts := ts_update (rs_ts st) (ids, handed_of items) |} rem rest
+          else ({| rs_cb := cb'; rs_ts := rs_ts st |}, true)
+      end
+  end.
+
+(* the `finally` block of Tuner.run, in the order of the code *)
+Inductive fin_step := FPrintBest | FCallbacksEnd | FSaveTuner | FStopAll | FMarkStopped.
+Definition finally_block : list fin_step :=
+  [FPrintBest; FCallbacksEnd; FSaveTuner; FStopAll; FMarkStopped].
+
+Definition fin_step_eqb (a b : fin_step) : bool :=
+  match a, b with
+  | FPrintBest, FPrintBest | FCallbacksEnd, FCallbacksEnd | FSaveTuner, FSaveTuner
+  | FStopAll, FStopAll | FMarkStopped, FMarkStopped => true
+  | _, _ => false
+  end.
+
+(* [fails f] = step f raises (e.g. the backend is unreachable in stop_all): the rest of the
+   block is not executed. Only on_tuning_end touches the table. Returns the state, whether
+   an exception left the block, and the steps that were executed. *)
+Fixpoint run_finally (fails : fin_step -> bool) (st : run_state) (block : list fin_step)
+  : run_state * bool * list fin_step :=
+  match block with
+  | [] => (st, false, [])
+  | f :: rest =>
+      if fails f then (st, true, [f])
+      else
+        let st' := match f with
+                   | FCallbacksEnd => {| rs_cb := cb_on_tuning_end (rs_cb st); rs_ts := rs_ts st |}
+                   | _ => st
+                   end in
+        let '(st'', r, tr) := run_finally fails st' rest in (st'', r, f :: tr)
+  end.
+
+(* A fresh StoreResultsCallback and TuningStatus; [old_disk] = what results.csv.zip holds
+   before this run (an earlier run under the same name), None = no file *)
+Definition run_init (add_wallclock_time : bool) (old_disk : option (list dict)) : run_state :=
+  {| rs_cb := cb_on_tuning_start
+                {| cb_results := []; cb_started := false; cb_wallclock := add_wallclock_time; cb_disk := old_disk |};
+     rs_ts := ts_init |}.
+
+Definition tuner_run (add_wallclock_time : bool) (old_disk : option (list dict))
+           (answers : list answer) (steps : list step) (fails : fin_step -> bool)
+  : run_state * bool * list fin_step :=
+  let '(st, raised) := run_body (run_init add_wallclock_time old_disk) answers steps in
+  let '(st', raised', tr) := run_finally fails st finally_block in
+  (st', raised || raised', tr).
+
+(* ---- the same, as pure functions of the inputs (specification) ------------- *)
+Fixpoint run_trace (answers : list answer) (steps : list step)
+  : list (event * bool) * list (list Z * list (Z * dict)) * bool :=
+  match steps with
+  | [] => ([], [], false)
+  | Fault :: _ => ([], [], true)
+  | Started t :: rest => let '(es, hs, r) := run_trace answers rest in (es, ([t], []) :: hs, r)
+  | Batch ids items :: rest =>
+      let '(evs, rem, ok) := deliver_batch answers [] items in
+      if ok then let '(es, hs, r) := run_trace rem rest in (evs ++ es, (ids, handed_of items) :: hs, r)
+      else (evs, [], true)
+  end.
+
+(* the results delivered to the scheduler in this run, and everything handed to the loop *)
+Definition run_delivered (answers : list answer) (steps : list step) : list event :=
+  map fst (fst (fst (run_trace answers steps))).
+Definition run_history (answers : list answer) (steps : list step) : list (list Z * list (Z * dict)) :=
+  snd (fst (run_trace answers steps)).
